@@ -134,4 +134,32 @@ Spec == Init /\ [][Next]_vars
 Interesting == \E i \in 1..Len(prog) : prog[i].op \in {"backward", "into_vec"}
 \* a program is emitted when it reached the length bound (its prefixes are validated with it)
 Emit == (~Room /\ Interesting) => PrintT(<<"PROG", ToJson(prog)>>)
+(***************************************************************************)
+(* Properties of the abstract specification itself, checked when this       *)
+(* module is model-checked exhaustively (MC configurations).                *)
+(***************************************************************************)
+LastOp(p) == p[Len(p)].op
+\* C12: clones, drops and flag changes never change a node or a gradient slot
+HandleStutter ==
+  [][LastOp(prog') \in {"clone", "drop", "tracked", "untracked", "start", "stop"}
+       => (S'.nodes = S.nodes /\ S'.grad = S.grad)]_vars
+\* C08: node values never change; C09: operands are recorded iff some operand handle was tracked
+ImmutableNodes == [][\A n \in 1..Len(S.nodes) : S'.nodes[n] = S.nodes[n]]_vars
+KidsIffTracked == \A n \in 1..Len(S.nodes) :
+                     S.nodes[n].kids # <<>> <=> \E i \in 1..Len(S.nodes[n].kids) : S.nodes[n].kids[i].trk
+\* C03: a stored gradient has its array's dimensions
+GradDims == \A n \in 1..Len(S.grad) : IsSome(S.grad[n]) => S.grad[n].x.d = S.nodes[n].t.d
+\* C17: the reference adjoint is linear in the seed (alpha = 2, beta = -3), for every live root
+ScaleT(t, c) == T(t.d, [k \in 1..Len(t.v) |-> DMul(DInt(c), t.v[k])])
+Lin(o1, o2) == IF o1.none THEN None ELSE Some(TAdd(ScaleT(o1.x, 2), ScaleT(o2.x, -3)))
+SeedLinear ==
+  \A h \in Live(S) :
+     LET n == S.hd[h].n  d == HandleT(S, h).d
+         s1 == T(d, [i \in 1..Prod(d) |-> DInt(SeedVals(d)[i])])
+         s2 == T(d, [i \in 1..Prod(d) |-> DInt(LeafVals(2, d)[i] - 6)])
+         a1 == RefAdj(S, n, s1)  a2 == RefAdj(S, n, s2)
+         a3 == RefAdj(S, n, TAdd(ScaleT(s1, 2), ScaleT(s2, -3)))
+         inDomain(a) == \A m \in 1..n : a[m].none \/ ~TaintedT(a[m].x)
+     IN (inDomain(a1) /\ inDomain(a2) /\ inDomain(a3) /\ \A m \in 1..n : a1[m].none \/ ~TaintedT(Lin(a1[m], a2[m]).x))
+          => \A m \in 1..n : a3[m] = Lin(a1[m], a2[m])
 =============================================================================
